@@ -220,6 +220,43 @@ def run(ctx):
                 break
 
 
+    # ---- equal sector keys over different numbers of orbitals: different spaces, must be refused (a 1 x 1 block
+    #      would otherwise be broadcast over the other operand's coefficients) ------------------------------------
+    for case in range(8 if quick else 60):
+        n1 = rng.choice([2, 3, 4])
+        n2 = rng.choice([m for m in (1, 2, 3, 4, 5) if m != n1])
+        nel = rng.randint(0, 2 * min(n1, n2))
+        szs = [s_ for s_ in range(-nel, nel + 1, 2) if (nel + s_) // 2 <= min(n1, n2) and (nel - s_) // 2 <= min(n1, n2)]
+        if not szs:
+            continue
+        sz = rng.choice(szs)
+        left = fqe.Wavefunction([[nel, sz, n1]])
+        right = fqe.Wavefunction([[nel, sz, n2]])
+        U.random_fill(left, rng, zero_p=0.0)
+        U.random_fill(right, rng, zero_p=0.0)
+        for opname in ("ax_plus_y", "add", "sub", "iadd"):
+            sl, sr = U.wfn_dict(left), U.wfn_dict(right)
+            try:
+                if opname == "ax_plus_y":
+                    left.ax_plus_y(2.0, right)
+                elif opname == "add":
+                    left + right
+                elif opname == "sub":
+                    left - right
+                else:
+                    left += right
+                refused = False
+            except Exception:
+                refused = True
+            ctx.case(("norb-mismatch", case, opname))
+            ctx.count("norb-mismatch:" + ("refused" if refused else "accepted"))
+            if not refused:
+                ctx.disagree("arith:norb-mismatch-accepted", f"{opname} combined wavefunctions over {n1} and {n2} orbitals "
+                             f"(same sector key ({nel}, {sz}))", {"norb": [n1, n2], "nele": nel, "sz": sz, "op": opname})
+                break
+            if U.wfn_dict(left) != sl or U.wfn_dict(right) != sr:
+                ctx.disagree("arith:norb-mismatch-operand-changed", f"refused {opname} changed an operand",
+                             {"norb": [n1, n2], "nele": nel, "sz": sz, "op": opname})
     # ---- nested sector sets: a strict subset on either side must be refused as well ---------------------------
     for case in range(6 if quick else 40):
         norb = rng.choice([2, 3])
